@@ -32,7 +32,7 @@ class NodeGetRecord(Unit):
     drops exactly the fields that are switched off (by the node's setting or by the argument) from the RETURNED record only"""
     name = "_AsyncNodeWrapper.get_record"
     target = aw.AS + "::_AsyncNodeWrapper.get_record"
-    props = ("C13",)
+    props = ("C13", "C01")
 
     def configs(self):
         yield "k=1,all", dict(k=1, off_setting=None, off_arg=None)
@@ -42,6 +42,8 @@ class NodeGetRecord(Unit):
             yield f"k=2,setting {f} off", dict(k=2, off_setting=f, off_arg=None)
             yield f"k=2,argument {f} off", dict(k=2, off_setting=None, off_arg=f)
         yield "k=2,second call (cached)", dict(k=2, off_setting=None, off_arg="state", cached=True)
+        # the step record overflowed (max_records reached, later steps discarded): every RETAINED step keeps its messages - a compiled replay needs the window of the last one too
+        yield "k=3,step record overflowed", dict(k=3, off_setting=None, off_arg=None, discarded=True)
 
     def run(self, ctx):
         ex, cfg = ctx.ex, ctx.cfg
@@ -49,6 +51,11 @@ class NodeGetRecord(Unit):
         k = cfg["k"]
         n.f["record_setting"] = {f: (f != cfg["off_setting"]) for f in FLAGS}
         n.f["_discarded"] = 0
+        if cfg.get("discarded"):
+            n.f["_discarded"] = z3.Int("discarded")
+            ctx.require(n.f["_discarded"] >= 1)
+            n.f["_max_records"] = k
+            n.f["max_records"] = k
         n.f["log"] = lambda ex_, *a, **kw: None
         recs = []
         for i in range(k):
